@@ -14,6 +14,7 @@ MCCfg2x2 == [num_rows |-> 2, num_cols |-> 2, time_limit |-> 0]     \* time_limit
 MCCfg2x3 == [num_rows |-> 2, num_cols |-> 3, time_limit |-> 0]
 MCCfg3x2 == [num_rows |-> 3, num_cols |-> 2, time_limit |-> 0]
 MCCfg3x3 == [num_rows |-> 3, num_cols |-> 3, time_limit |-> 0]
+MCCfg3x4 == [num_rows |-> 3, num_cols |-> 4, time_limit |-> 0]
 
 Encode(sn, f, sc) ==
   LET og == OrderGrid(sn) IN
